@@ -117,6 +117,16 @@ pub fn c33_async_case(src: &mut Src, obs: &mut Obs) -> CaseResult {
             regs.push(i);
         }
     }
+    // the kept-proxy cases (decided below from the next draw) lean towards two interfaces that have a
+    // property name in common, and towards reading and writing properties
+    let lean = src.bool();
+    if lean && regs.len() == 1 {
+        let names: Vec<&str> = ifs[regs[0]].props.iter().map(|p| p.name).collect();
+        let cands: Vec<usize> = (0..ifs.len()).filter(|i| *i != regs[0] && ifs[*i].props.iter().any(|p| names.contains(&p.name))).collect();
+        if !cands.is_empty() {
+            regs.push(cands[src.below(cands.len())]);
+        }
+    }
     for i in &regs {
         let (c, l, f) = (server.clone(), log.clone(), ifs[*i].register);
         let a = sched.spawn("register", async move {
@@ -132,21 +142,47 @@ pub fn c33_async_case(src: &mut Src, obs: &mut Obs) -> CaseResult {
         let _ = sched.run(&mut || sch.next(), 400_000, &mut |_| false);
     }
     let mut models: Vec<Vec<RVal>> = regs.iter().map(|i| ifs[*i].props.iter().map(|p| (p.init)()).collect()).collect();
-    let nops = 2 + src.below(5);
+    // half the cases build a proxy per operation; the others keep one proxy per interface for the
+    // whole case (its property cache then has to follow every change), with a generated caching mode
+    let ctx = PxCtx { slots: if lean || src.bool() { Some(Default::default()) } else { None }, cache: src.weighted(&[6, 2, 1]) as u8 };
+    // (register index, operation index) of every property read / write there is, those of names
+    // that two registered interfaces share listed apart
+    let mut prop_ops: Vec<(usize, usize)> = vec![];
+    let mut shared_ops: Vec<(usize, usize)> = vec![];
+    for (ri, i) in regs.iter().enumerate() {
+        for (oi, (k, j)) in ifs[*i].px_ops.iter().enumerate() {
+            if *k != "m" {
+                prop_ops.push((ri, oi));
+                let name = ifs[*i].props[*j].name;
+                if regs.iter().enumerate().any(|(rj, i2)| rj != ri && ifs[*i2].props.iter().any(|p| p.name == name)) {
+                    shared_ops.push((ri, oi));
+                }
+            }
+        }
+    }
+    let kept = ctx.slots.is_some();
+    let nops = 2 + src.below(if kept { 9 } else { 5 });
+    let mut seen_sets: Vec<(usize, usize)> = vec![];
     let mut history: Vec<String> = vec![];
     let mut classes: Vec<&'static str> = vec![];
     for _ in 0..nops {
-        let ri = src.below(regs.len());
+        let (ri, op) = match (lean, src.weighted(&[3, 3, 4])) {
+            (true, 1) if !prop_ops.is_empty() => prop_ops[src.below(prop_ops.len())],
+            (true, 2) if !shared_ops.is_empty() => shared_ops[src.below(shared_ops.len())],
+            _ => {
+                let ri = src.below(regs.len());
+                if ifs[regs[ri]].px_ops.is_empty() {
+                    continue;
+                }
+                (ri, src.below(ifs[regs[ri]].px_ops.len()))
+            }
+        };
         let e = &ifs[regs[ri]];
-        if e.px_ops.is_empty() {
-            continue;
-        }
-        let op = src.below(e.px_ops.len());
         let bytes = src.bytes(40);
         let out: Arc<Mutex<Option<Result<PxOut, String>>>> = Default::default();
-        let (o2, c, f) = (out.clone(), client.clone(), e.px);
+        let (o2, c, f, cx) = (out.clone(), client.clone(), e.px, ctx.clone());
         let a = sched.spawn("proxy-op", async move {
-            let r = f(&c, "/gen".to_string(), op, bytes).await;
+            let r = f(&c, "/gen".to_string(), op, bytes, cx).await;
             *o2.lock().unwrap() = Some(r);
         });
         let oc = sched.run(&mut || sch.next(), 3_000_000, &mut |s| {
@@ -181,13 +217,35 @@ pub fn c33_async_case(src: &mut Src, obs: &mut Obs) -> CaseResult {
         };
         let lg = log.lock().unwrap().clone();
         match judge(e, &out, &lg, &mut models[ri]) {
-            Ok(c) => classes.push(c),
-            Err(m) => return Err(Failure::new(format!("{m}; operation {what} on {} ({}); history {history:?}", e.name, e.rs))),
+            Ok(c) => {
+                classes.push(c);
+                if kept && ctx.cache != 2 {
+                    // what the kept proxies' caches are made to follow
+                    match (&out, c) {
+                        (PxOut::Set { prop, .. }, "set") => {
+                            seen_sets.push((ri, *prop));
+                            if e.props[*prop].interior && e.props[*prop].emits != "false" {
+                                classes.push("kept-proxy:set-through-&self-setter");
+                            }
+                            let name = e.props[*prop].name;
+                            if regs.iter().enumerate().any(|(rj, i)| rj != ri && ifs[*i].props.iter().any(|p| p.name == name)) {
+                                classes.push("kept-proxy:set-of-a-name-another-interface-has-too");
+                            }
+                        }
+                        (PxOut::Get { prop, .. }, _) if seen_sets.contains(&(ri, *prop)) => classes.push("kept-proxy:get-after-set"),
+                        _ => {}
+                    }
+                }
+            }
+            Err(m) => return Err(Failure::new(format!("{m}; operation {what} on {} ({}); proxies kept between operations: {kept}, caching mode {}; history {history:?}", e.name, e.rs, ctx.cache))),
         }
         log.lock().unwrap().clear();
     }
     for c in &classes {
         obs.label(c);
+    }
+    if kept {
+        obs.label("proxies-kept-between-operations");
     }
     if classes.len() >= 2 {
         obs.nontrivial(fnv(format!("{regs:?}{history:?}{classes:?}").as_bytes()));
@@ -204,6 +262,8 @@ impl Warmup {
 
 /// blocking proxies: real threads (the library's executor threads on both connections) over a
 /// socket pair; a hang shows as the client's method timeout and is reported as inconclusive
+/// (proxies are built per operation here: with the library's own threads a kept proxy's cache task
+/// and the caller race for the same signal, and which of them runs first is not the harness's to say)
 pub fn c33_blocking_case(src: &mut Src, obs: &mut Obs) -> CaseResult {
     let ifs = ifaces();
     let (s0, s1) = std::os::unix::net::UnixStream::pair().map_err(|e| Failure::new(format!("harness: socketpair: {e}")))?;
